@@ -33,6 +33,11 @@ type input struct {
 	fail  string        // "" for a succeeding input, else the failure kind
 	maxMs time.Duration // >0: evaluation deadline for this input
 	depth int           // >0: State.MaxDepth for this input (default maxDepthC10)
+	// budget probes: succeeding inputs that may legitimately end in an error or a panic; they measure what is
+	// left of the depth budget ("depth") or of the root environment's register file ("registers")
+	probe string
+	// an inserted input that is not required to fail (e.g. `return 5` at top level)
+	neutral bool
 }
 
 // Pure, memoizable functions (parameters and locals only, names used nowhere else): a call that fails
@@ -63,6 +68,7 @@ var preludeC10 = []input{
 	{src: `func pan(n){for i=0:n{if i==1{vpanic()}}}; func pan2(n){pan(n)}; func pan3(a){vprobe(); vpanic()}`, skel: "(S)"},
 	{src: `func spin(){for true {}}; func pr(a){vprobe(); println(a)}`, skel: "(S)"},
 	{src: `func fact(n){if n<=1 {return 1}; n*fact(n-1)}; cnt=0`, skel: "(S)"},
+	{src: `func stray(){break}; func strayc(){continue}; func sn(n){if n<=0 {break}; sn(n-1)}; func en(n){if n<=0 {error("deep err")}; en(n-1)+0}`, skel: "(S)"},
 }
 
 const boomSk = "(C 1 (S (L 11 (S) (S e))))" // boom(k), k>=2
@@ -85,6 +91,100 @@ var failing = []input{
 	{src: `for true {}`, skel: "(S e)", fail: "deadline-toplevel", maxMs: 4 * time.Millisecond},
 	{src: `spin()`, skel: "(S (C 0 (S e)))", fail: "deadline-in-function", maxMs: 4 * time.Millisecond},
 	{src: `for a=0:2{spin()}`, skel: "(S (L 11 (S (C 0 (S e)))))", fail: "deadline-in-function-in-loop", maxMs: 4 * time.Millisecond},
+	// control statements outside loops: ordinary errors raised at an Eval boundary
+	{src: `break`, skel: "(S b)", fail: "stray-break-toplevel"},
+	{src: `continue`, skel: "(S c)", fail: "stray-continue-toplevel"},
+	{src: `stray()`, skel: "(S (C 0 (S b)))", fail: "stray-break-in-function"},
+	{src: `x9 = strayc()`, skel: "(S (C 0 (S c)))", fail: "stray-continue-in-function-assigned"},
+	{src: `(func(){if true {continue}})()`, skel: "(S (C 0 (S c)))", fail: "stray-continue-in-lambda"},
+	{src: `sn(3)`, skel: "(S (C 1 (S (C 1 (S (C 1 (S (C 1 (S b)))))))))", fail: "stray-break-in-nested-calls"},
+	{src: `for a=0:2{for b=0:2{x9=stray()}}`, skel: "(S (L 11 (S (L 11 (S (C 0 (S b)))))))", fail: "stray-break-in-function-in-loops"},
+	// errors inside nested calls at several depths
+	{src: `en(1)`, skel: "(S (C 1 (S (C 1 (S e)))))", fail: "error-nested-calls-depth-2"},
+	{src: `en(4)`, skel: "(S (C 1 (S (C 1 (S (C 1 (S (C 1 (S (C 1 (S e)))))))))))", fail: "error-nested-calls-depth-5"},
+	// the other error kinds of the evaluator
+	{src: `1+"a"`, skel: "(S e)", fail: "error-operand-types"},
+	{src: `-"a"`, skel: "(S e)", fail: "error-prefix-operand"},
+	{src: `5(1)`, skel: "(S e)", fail: "error-not-a-function"},
+	{src: `boom()`, skel: "(S e)", fail: "error-argument-count"},
+	{src: `nosuchfunc(1)`, skel: "(S e)", fail: "error-unknown-function"},
+	{src: `if 1 {2}`, skel: "(S e)", fail: "error-condition-not-boolean"},
+	{src: `for "a" {1}`, skel: "(S e)", fail: "error-for-condition"},
+	{src: `for i="a":3 {1}`, skel: "(S e)", fail: "error-for-range"},
+	{src: `len(5)`, skel: "(S e)", fail: "error-builtin-argument"},
+	{src: `1/0`, skel: "(S e)", fail: "error-division-by-zero"},
+	{src: `[1,2][0:"a"]`, skel: "(S e)", fail: "error-range-index"},
+	{src: `5[1]=2`, skel: "(S e)", fail: "error-index-assignment"},
+	{src: `PI=3`, skel: "(S e)", fail: "error-constant-assignment"},
+	{src: `return 5`, skel: "(S r)", fail: "return-at-toplevel", neutral: true},
+}
+
+// Budget probes, appended to every history: what a failing input may have used up without showing it.
+//   depth:     m nested prefix minus signs cost exactly one depth level each; under MaxDepth 60 the ladder m=54..64
+//              crosses the limit, so a session that starts an input at depth k > 0 panics k steps earlier;
+//   registers: d nested counted loops with fresh variable names, then the innermost variable read after the loops:
+//              'identifier not found' as long as the root environment still has d free registers, a value when the
+//              innermost loop had to fall back to a plain variable.
+// Which ladder steps fail in a CLEAN session is measured once on a fresh state (calibration), the comparison is
+// always with the history that never saw the failing inputs.
+const probeMaxDepth = 60
+
+func depthProbeSrc(m int) string {
+	return strings.Repeat("-(", m) + "1" + strings.Repeat(")", m)
+}
+
+func regProbe(d int) (src, loops string) {
+	var names []string
+	for i := 1; i <= d; i++ {
+		names = append(names, fmt.Sprintf("q%d", i))
+	}
+	body := strings.Join(names, "+")
+	sk := "(S)"
+	for i := d; i >= 1; i-- {
+		body = fmt.Sprintf("for %s=1 {%s}", names[i-1], body)
+		sk = "(L 11 " + sk + ")"
+		if i > 1 {
+			sk = "(S " + sk + ")"
+		}
+	}
+	return body + "; " + names[d-1], sk
+}
+
+var probeCache = map[bool][]input{}
+
+func budgetProbes(c *Ctx, noReg bool) []input {
+	if p, ok := probeCache[noReg]; ok {
+		return p
+	}
+	var ps []input
+	for m := 54; m <= 64; m++ {
+		ps = append(ps, input{src: depthProbeSrc(m), depth: probeMaxDepth, probe: "depth"})
+	}
+	for d := 1; d <= 9; d++ {
+		src, _ := regProbe(d)
+		ps = append(ps, input{src: src, probe: "registers"})
+	}
+	// calibration on a fresh state: each probe alone after the prelude
+	for i := range ps {
+		h := append(append([]input{}, preludeC10...), ps[i])
+		o := runHistory(c, noReg, h)[len(h)-1]
+		_, loops := regProbe(1)
+		if ps[i].probe == "registers" {
+			_, loops = regProbe(i - 10)
+		}
+		switch {
+		case ps[i].probe == "depth" && o.Class() == "p":
+			ps[i].skel = "(S d)"
+		case ps[i].probe == "depth":
+			ps[i].skel = "(S)"
+		case o.Class() == "e":
+			ps[i].skel = "(S " + loops + " e)"
+		default:
+			ps[i].skel = "(S " + loops + ")"
+		}
+	}
+	probeCache[noReg] = ps
+	return ps
 }
 
 // generator of succeeding inputs: each depends on the session state built so far
@@ -222,6 +322,10 @@ func checkHistory(c *Ctx, noReg bool, h []input, baseObs []SessObs, withModel bo
 			for _, e := range obs[i].Errs {
 				failErrs[e] = in.fail
 			}
+			if in.neutral {
+				c.Count("fail=" + in.fail)
+				continue
+			}
 			if obs[i].Class() == "v" {
 				c.Fail("failing-input-did-not-fail:"+in.fail, encodeHist(noReg, h), fmt.Sprintf("input %d %q evaluated without error", i, in.src))
 			} else if obs[i].Out != "" && !strings.HasPrefix(in.fail, "error") && in.fail != "parse-error" {
@@ -241,6 +345,9 @@ func checkHistory(c *Ctx, noReg bool, h []input, baseObs []SessObs, withModel bo
 				if len(baseObs[bi].Errs) == 0 && (strings.Contains(strings.Join(obs[i].Errs, " "), msg) || strings.Contains(obs[i].Out, msg)) {
 					kind, d = k, "cached-error-replayed"
 				}
+			}
+			if in.probe != "" {
+				d = in.probe + "-budget-shrunk"
 			}
 			c.Fail("trace-after-"+kind+":"+d, encodeHist(noReg, h),
 				fmt.Sprintf("input %d %q: without the failing inputs out=%q errs=%q panicked=%v ; with them out=%q errs=%q panicked=%v",
@@ -283,9 +390,9 @@ func runC10(c *Ctx) {
 		}
 		return
 	}
-	nBases, nRandom := 24, 1200
+	nBases, nRandom := 8, 600
 	if c.Thorough() {
-		nBases, nRandom = 500, 40000
+		nBases, nRandom = 160, 20000
 	}
 	// corpus first: the two histories that failed on the pinned tree
 	corpus := [][]input{
@@ -355,9 +462,10 @@ func runC10(c *Ctx) {
 		// the base always ends with inputs that show the accumulated state
 		base = append(base, input{src: `cnt = cnt + 1; println(cnt)`, skel: "(S)"}, input{src: `pr(77)`, skel: "(S (C 1 (S P)))"})
 		noReg := b%5 == 4
+		base = append(base, budgetProbes(c, noReg)...)
 		baseObs := runHistory(c, noReg, base)
 		for i, o := range baseObs {
-			if o.Class() != "v" {
+			if o.Class() != "v" && base[i].probe == "" {
 				c.Fail("succeeding-input-failed", encodeHist(noReg, base), fmt.Sprintf("input %d %q: %q", i, base[i].src, o.Errs))
 			}
 		}
@@ -396,9 +504,10 @@ func runC10(c *Ctx) {
 			h = append(h, failing[c.R.Intn(len(failing))])
 		}
 		tail := []input{{src: `cnt = cnt + 1; println(cnt)`, skel: "(S)"}, {src: `pr(78)`, skel: "(S (C 1 (S P)))"}}
+		noReg := c.R.Pct(25)
+		tail = append(tail, budgetProbes(c, noReg)...)
 		base = append(base, tail...)
 		h = append(h, tail...)
-		noReg := c.R.Pct(25)
 		checkHistory(c, noReg, h, runHistory(c, noReg, base), true)
 		c.Count("random-mixtures")
 	}
